@@ -979,6 +979,31 @@ func (c *Ctx) evalCall(e *Expr, env *Env) *Val {
 		sub := *env
 		sub.inOld = true
 		return c.evalExpr(e.Args[0], &sub)
+	case "athead":
+		// athead(x): in a `loop N iteration` clause, the value the variable x had when the
+		// iteration just finished began - also for a re-assigned parameter, whose old(x) is its
+		// value on entry of the function
+		if env.oldNames == nil || len(e.Args) != 1 || e.Args[0].Op != "id" {
+			c.specErr("athead(<variable>) is for loop iteration clauses")
+			return nil
+		}
+		name := e.Args[0].Name
+		if v, ok := env.oldNames[name]; ok {
+			return v
+		}
+		sub := *env
+		sub.st = env.old
+		if _, isParam := c.paramVals[name]; isParam {
+			if v := c.currentOfSpilledParam(name, &sub); v != nil {
+				return v
+			}
+		}
+		sub.inOld = true
+		if v := c.lookupLocalName(name, &sub); v != nil {
+			return v
+		}
+		c.specErr("athead: %s is not a variable of the loop", name)
+		return nil
 	case "len", "cap":
 		x := arg(0)
 		if x == nil {
